@@ -53,6 +53,8 @@ def orbit(Gl, Gr, m):
 def check_pair(Gl, Gr, ms, label):
     """ms: (n,4) unit quaternions"""
     cl = f"{gclass(Gl)}+{gclass(Gr)}"
+    if "improper-noinv" in cl:
+        cl += f":{Gl.name},{Gr.name}"     # one root cause per group: name it
     try:
         region = OrientationRegion.from_symmetry(Gl, Gr)
     except NotImplementedError:
